@@ -20,7 +20,7 @@ func (c04) Size(tier string) Size {
 	return Size{Batches: 16, Cases: 1500}
 }
 func (c04) Rule() string {
-	return "case = document over a random schema of 1-3 soft / struct-backed types with resources as primary data (single, Resources / SoftCollection / WrapperCollection members) and as included resources of different types; url.Params.Fields is built directly (missing entry, empty list, all, random subsets, 'id', unknown names, duplicates) and Document.RelData is a random subset of each type's relationships (+ unknown names). Oracle: for every resource object of the output, attribute names == attrs(type) ∩ selection, relationship names == rels(type) ∩ selection, data present iff requested, data == the spec's related IDs with the target type (null for an empty to-one), nothing without a selection entry. Directed: for a 3-attribute/3-relationship type EVERY subset as selection x EVERY subset as relationship-data request, in primary, collection-member and included position, soft and wrapped. Non-trivial = selection is a proper non-empty subset for at least one type; distinct = spec hash."
+	return "case = document over a random schema of 1-3 soft / struct-backed types with resources as primary data (single, Resources / SoftCollection / WrapperCollection members) and as included resources of different types; url.Params.Fields is built directly (missing entry, empty list, all, random subsets, 'id', unknown names, duplicates) and Document.RelData is a random subset of each type's relationships (+ unknown names). Every document is marshaled a second time (same Document value, URL selecting every field) and judged again: what the first call did with the caller's lists must not show. Oracle: for every resource object of the output, attribute names == attrs(type) ∩ selection, relationship names == rels(type) ∩ selection, data present iff requested, data == the spec's related IDs with the target type (null for an empty to-one), nothing without a selection entry. Directed: for a 3-attribute/3-relationship type EVERY subset as selection x EVERY subset as relationship-data request, in primary, collection-member and included position, soft and wrapped. Non-trivial = selection is a proper non-empty subset for at least one type; distinct = spec hash."
 }
 func (c04) Assumptions() []string {
 	return []string{"IDs are unique within one document so that an output object can be matched to its spec; the output is read by my own JSON walk"}
@@ -39,13 +39,50 @@ func (m c04) run(c *Ctx, d *DocSpec) {
 	c.Count("evaluations")
 	var out []byte
 	var err error
+	var b *docBuilt
+	violationsBefore := c.Counters["violations_observed"]
 	if pi := Guard(func() {
-		b := d.build()
+		b = d.build()
 		out, err = jsonapi.MarshalDocument(b.Doc, b.URL)
 	}); pi != nil {
 		c.Violate("panic@"+pi.Frame+"/"+panicClass(pi.Val), "MarshalDocument: %s; doc %s", pi, clip(jsonStr(d), 2500))
 		return
 	}
+	// the same Document (same relationship-data request, the caller's own lists) answered again for a request that
+	// selects every field: what the first call did with the lists it was given must not show in the second answer
+	defer func() {
+		if c.Counters["violations_observed"] != violationsBefore || b == nil || len(d.Errors) > 0 {
+			return
+		}
+		d2 := *d
+		d2.Fields = map[string][]string{}
+		for i := range d.Schema.Types {
+			d2.Fields[d.Schema.Types[i].Name] = d.Schema.Types[i].FieldNames()
+		}
+		var out2 []byte
+		var err2 error
+		if pi := Guard(func() {
+			u2 := *b.URL
+			p2 := *b.URL.Params
+			p2.Fields = copyStrMap(d2.Fields)
+			u2.Params = &p2
+			out2, err2 = jsonapi.MarshalDocument(b.Doc, &u2)
+		}); pi != nil {
+			c.Violate("panic@"+pi.Frame+"/"+panicClass(pi.Val)+"/second-request", "MarshalDocument: %s; doc %s", pi, clip(jsonStr(d), 2500))
+			return
+		}
+		if err2 != nil {
+			return
+		}
+		root2, perr := parseJV(out2)
+		if perr != nil {
+			return
+		}
+		c.Count("second_requests_on_the_same_document")
+		if cl, msg := checkSparse(root2, &d2); cl != "" {
+			c.Violate(cl+"/second-request", "the same Document marshaled again with every field selected: %s; output %s; doc %s", msg, clip(string(out2), 1500), clip(jsonStr(d), 2500))
+		}
+	}()
 	if err != nil {
 		c.Violate("marshal-error", "MarshalDocument: %v; doc %s", err, clip(jsonStr(d), 2500))
 		return
